@@ -34,6 +34,8 @@ def _init_worker(pid, tier, seed):
     _W["mod"] = importlib.import_module("props.%s" % pid.lower())
     _W["findings"] = load_findings()
     sys.setrecursionlimit(10000)
+    import warnings
+    warnings.simplefilter("ignore")
 
 
 def _run_item(job):
